@@ -24,8 +24,12 @@ pub struct HistScenario {
     pub delivery: Vec<usize>,
     /// how each delivered observation is passed: 0 owned array, 1 view, 2 strided row of a column-major matrix
     pub forms: Vec<u8>,
-    /// layout of the matrix for the matrix form: 0 row-major, 1 column-major
+    /// layout of the matrix for the matrix form: 0 row-major, 1 column-major,
+    /// 2 view with the coordinate axis reversed, 3 view with the row axis reversed
     pub matrix_order: u8,
+    /// per axis, how the edge collection is handed to `Edges::from`: 0 Vec, 1 owned Array1,
+    /// 2 owned Array1 trimmed with slice_move, 3 owned reversed Array1, 4 owned stepped Array1
+    pub edge_forms: Vec<u8>,
 }
 
 impl HistScenario {
@@ -39,6 +43,7 @@ impl HistScenario {
             "delivery": self.delivery,
             "forms": self.forms,
             "matrix_order": self.matrix_order,
+            "edge_forms": self.edge_forms,
             "note": "N64 values are the listed integers times 0.5; +-2^40 stand for +-infinity",
         })
     }
@@ -51,6 +56,7 @@ impl HistScenario {
             delivery: v["delivery"].as_array().ok_or("delivery")?.iter().map(|x| x.as_u64().unwrap_or(0) as usize).collect(),
             forms: v["forms"].as_array().map(|a| a.iter().map(|x| x.as_u64().unwrap_or(0) as u8).collect()).unwrap_or_default(),
             matrix_order: v["matrix_order"].as_u64().unwrap_or(0) as u8,
+            edge_forms: v.get("edge_forms").and_then(|a| a.as_array()).map(|a| a.iter().map(|x| x.as_u64().unwrap_or(0) as u8).collect()).unwrap_or_default(),
         })
     }
     /// the observations in delivery order
@@ -154,8 +160,42 @@ impl HistElem for N64 {
 pub const POS_INF: i64 = 1 << 40;
 pub const NEG_INF: i64 = -(1 << 40);
 
+fn edges_of<T: HistElem>(e: &[i64], form: u8) -> Edges<T> {
+    let vals: Vec<T> = e.iter().map(|&v| T::conv(v)).collect();
+    let junk = T::conv(3);
+    match form {
+        1 => Edges::from(Array1::from(vals)),
+        2 => {
+            // an owned array that does not start at the beginning of its allocation
+            let mut v = vec![junk.clone(), junk.clone()];
+            let n = vals.len();
+            v.extend(vals);
+            v.push(junk);
+            Edges::from(Array1::from(v).slice_move(ndarray::s![2..2 + n]))
+        }
+        3 => {
+            let mut v = vals;
+            v.reverse();
+            Edges::from(Array1::from(v).slice_move(ndarray::s![..;-1]))
+        }
+        4 => {
+            let mut v = Vec::with_capacity(vals.len() * 2);
+            for x in vals {
+                v.push(x);
+                v.push(junk.clone());
+            }
+            Edges::from(Array1::from(v).slice_move(ndarray::s![..;2]))
+        }
+        _ => Edges::from(vals),
+    }
+}
+
+fn grid_of_forms<T: HistElem>(edges: &[Vec<i64>], forms: &[u8]) -> Grid<T> {
+    Grid::from(edges.iter().enumerate().map(|(j, e)| Bins::new(edges_of::<T>(e, forms.get(j).copied().unwrap_or(0)))).collect::<Vec<_>>())
+}
+
 fn grid_of<T: HistElem>(edges: &[Vec<i64>]) -> Grid<T> {
-    Grid::from(edges.iter().map(|e| Bins::new(Edges::from(e.iter().map(|&v| T::conv(v)).collect::<Vec<T>>()))).collect::<Vec<_>>())
+    grid_of_forms::<T>(edges, &[])
 }
 
 fn counts_of<T: HistElem>(h: &Histogram<T>) -> (Vec<usize>, Vec<usize>) {
@@ -187,6 +227,12 @@ fn insert_obs<T: HistElem>(h: &mut Histogram<T>, obs: &[i64], form: u8) -> Resul
             h.add_observation(&m.row(1)).map_err(|_| ())
         }
         3 => h.add_observation(&Array1::from(vals).into_shared()).map_err(|_| ()),
+        4 => {
+            let mut r = vals;
+            r.reverse();
+            let a = Array1::from(r);
+            h.add_observation(&a.slice(ndarray::s![..;-1])).map_err(|_| ())
+        }
         _ => h.add_observation(&Array1::from(vals)).map_err(|_| ()),
     }
 }
@@ -206,7 +252,7 @@ fn exec_hist_t<T: HistElem>(scn: &HistScenario) -> RunResult {
     }
     let (out, _s) = with_policy(&pol, 64, || {
         let mut viol: Option<(String, String)> = None;
-        let mut h = Histogram::new(grid_of::<T>(&scn.edges));
+        let mut h = Histogram::new(grid_of_forms::<T>(&scn.edges, &scn.edge_forms));
         let mut events: Vec<u64> = vec![];
         let mut faults: Vec<&'static str> = vec![];
         let (shape0, _) = counts_of(&h);
@@ -282,21 +328,48 @@ fn exec_hist_t<T: HistElem>(scn: &HistScenario) -> RunResult {
             // matrix form: observations as rows, rejected ones skipped
             let rows: Vec<&Vec<i64>> = delivered.iter().filter(|o| o.len() == d).collect();
             let flat_c: Vec<T> = rows.iter().flat_map(|o| o.iter().map(|&v| T::conv(v))).collect();
-            let m: Array2<T> = if scn.matrix_order == 1 {
-                let mut flat_f: Vec<T> = Vec::with_capacity(flat_c.len());
-                for j in 0..d {
-                    for r in &rows {
-                        flat_f.push(T::conv(r[j]));
+            let nrows = rows.len();
+            let get = |i: usize, j: usize| T::conv(rows[i][j]);
+            let owned: Array2<T> = match scn.matrix_order {
+                1 => {
+                    let mut flat_f: Vec<T> = Vec::with_capacity(flat_c.len());
+                    for j in 0..d {
+                        for i in 0..nrows {
+                            flat_f.push(get(i, j));
+                        }
                     }
+                    Array2::from_shape_vec((nrows, d).f(), flat_f).unwrap()
                 }
-                Array2::from_shape_vec((rows.len(), d).f(), flat_f).unwrap()
-            } else {
-                Array2::from_shape_vec((rows.len(), d), flat_c).unwrap()
+                2 => {
+                    // stored with the coordinate axis reversed; the view below reverses it back
+                    let mut v: Vec<T> = Vec::with_capacity(flat_c.len());
+                    for i in 0..nrows {
+                        for j in (0..d).rev() {
+                            v.push(get(i, j));
+                        }
+                    }
+                    Array2::from_shape_vec((nrows, d), v).unwrap()
+                }
+                3 => {
+                    let mut v: Vec<T> = Vec::with_capacity(flat_c.len());
+                    for i in (0..nrows).rev() {
+                        for j in 0..d {
+                            v.push(get(i, j));
+                        }
+                    }
+                    Array2::from_shape_vec((nrows, d), v).unwrap()
+                }
+                _ => Array2::from_shape_vec((nrows, d), flat_c).unwrap(),
+            };
+            let m = match scn.matrix_order {
+                2 => owned.slice(ndarray::s![.., ..;-1]),
+                3 => owned.slice(ndarray::s![..;-1, ..]),
+                _ => owned.view(),
             };
             let h3 = m.histogram(grid_of::<T>(&scn.edges));
             let (s3, c3) = counts_of(&h3);
             if viol.is_none() && (c3 != fin || s3 != model.shape()) {
-                viol = Some(("hist-matrix-form".into(), format!("observations.histogram(grid) on a {} matrix gives counts {:?} (shape {:?}); inserting the same rows one at a time gives {:?}", if scn.matrix_order == 1 { "column-major" } else { "row-major" }, c3, s3, fin)));
+                viol = Some(("hist-matrix-form".into(), format!("observations.histogram(grid) on a {} matrix gives counts {:?} (shape {:?}); inserting the same rows one at a time gives {:?}", ["row-major", "column-major", "coordinate-axis-reversed", "row-axis-reversed"][(scn.matrix_order % 4) as usize], c3, s3, fin)));
             }
         }
         (viol, events, faults, fin, model.accepted)
